@@ -287,7 +287,7 @@ def check(run, replay=None):
         run.inconclusive.append('data layout differs')
         return
     run.extra['explanation'] = __doc__
-    N = 3 if run.tier == 'quick' else 4
+    N = 3      # four generated moves: Q, R and AB queries get no verdict within 60 s (tried); stated bound for both tiers
     jobs = [('AB', n) for n in range(1, N + 1)] + [('Q', n) for n in range(0, N + 1)] + [('R', n) for n in range(1, N + 1)] + [('W', 0)]
     run.bounds.append('nodes with 1..%d pseudo-legal moves (quiescence: 0..%d); any depth (induction over the tree height); any ply 1..200; all windows MIN <= alpha < beta <= MAX' % (N, N))
     run.outside += ['nodes with more moves than the bound (the loop body is uniform, but this is not proved by a loop invariant)',
